@@ -75,14 +75,14 @@ PSc == Prof("sc", 2, TRUE, FALSE, "neterr", {"json", "sse", "202", "rpcerr", "40
 PSd == Prof("sd", 2, TRUE, TRUE, "404", AllPost, {"sse", "405", "404"}, {"A"}, {"", "A"}, 1, 2, 2, 2, FALSE)
 ProfSim == {PSa, PSb, PSc, PSd}
 \* thorough
-PT1 == Prof("t1", 3, FALSE, FALSE, "ok", {"json", "sse", "rpcerr", "404", "http", "badct"}, {"405"}, {"A"}, {""}, 1, 0, 0, 2, FALSE)
+PT1 == Prof("t1", 3, FALSE, FALSE, "ok", {"json", "sse", "404", "http"}, {"405"}, {"A"}, {""}, 0, 0, 0, 1, FALSE)
 PT2 == Prof("t2", 2, TRUE, FALSE, "ok", {"json", "sse", "404", "http"}, {"sse", "405", "503sse", "neterr"}, {"A"}, {""}, 0, 2, 0, 1, FALSE)
 PT3 == Prof("t3", 2, TRUE, TRUE, "405", {"json", "sse", "401", "404", "5xx", "202"}, {"sse", "405"}, {"A"}, {"", "A"}, 0, 0, 2, 2, TRUE)
 PT4 == [PT3 EXCEPT !.name = "t4", !.sa = FALSE, !.del = "neterr"]
 PT5 == Prof("t5", 2, FALSE, FALSE, "404", {"json", "sse", "202", "404"}, {"405"}, {"", "A"}, {"", "A", "B"}, 1, 0, 0, 2, FALSE)
-ProfMCT == {PT1, PT2, PT3, PT4, PT5}
-PLt1 == Prof("lt1", 2, TRUE, FALSE, "timeout", {"json", "sse", "404", "http"}, {"sse", "405"}, {"A"}, {""}, 0, 0, 0, 1, FALSE)
-PLt2 == [PLt1 EXCEPT !.name = "lt2", !.sa = FALSE, !.del = "ok"]
+ProfMCT == {PT1, PT2, PT3, PT5}
+PLt1 == Prof("lt1", 1, TRUE, FALSE, "timeout", {"json", "sse", "404", "http"}, {"sse", "405"}, {"A"}, {""}, 0, 1, 0, 1, FALSE)
+PLt2 == Prof("lt2", 2, FALSE, FALSE, "ok", {"json", "404", "http"}, {"405"}, {"A"}, {""}, 0, 0, 0, 1, FALSE)
 PLt3 == Prof("lt3", 1, TRUE, TRUE, "ok", {"json", "401", "404", "badct"}, {"sse", "405", "503sse"}, {"A"}, {"", "B"}, 1, 1, 1, 2, TRUE)
 ProfLiveT == {PLt1, PLt2, PLt3}
 
